@@ -254,15 +254,6 @@ def reglue_pairs(ctx, g):
     ctx.floor("reglue call sites with a literal pair list", n_lit, 6)
 
 
-def as_index(t):
-    t = strip(t)
-    if t[0] == "index":
-        return strip(t[1]), t[2]
-    if is_call(t, "Index::index") and len(t[2]) == 2:
-        return strip(t[2][0]), t[2][1]
-    return None
-
-
 class Glue:
     """symbolic evaluation of the pair lists a cutting primitive hands to reglue: fresh chambers are integers (size = 100), existing
     chambers are (root, canonical operation word)"""
